@@ -5,7 +5,9 @@ import json, os, re
 import vlib
 
 COQ_TARGET = "props/C04.v"
-THEOREMS = ["C04_denotes", "C04_additive", "C04_literals"]
+THEOREMS = ["C04_denotes", "C04_additive", "C04_literals", "C04_token_boundary", "C04_token_blanks", "C04_token_line_break",
+            "C04_token_safe", "C04_token_prefix", "C04_bang", "C04_bang_blanks", "C04_bang_array",
+            "C04_in_program_rest", "C04_in_program_length", "C04_in_program_note", "C04_in_program_note_field"]
 RULE = ("expressions generated from the grammar [%]?[-]?digits? dots? ((^|+) part)* as syntax trees (printed by the "
         "extracted Coq printer), time bases 48..32767, defaults 0..4*tb, plus junk strings over the length alphabet; "
         "non-trivial = distinct (string,tb,default) with at least one part, dot or step marker")
